@@ -328,11 +328,8 @@ func c03ParserSubscript(w *World, r *Result) {
 		if s.Key() != "StringSubscript.endIndex" && s.Key() != "StringSubscript.startIndex" {
 			continue
 		}
-		if FuncName(s.Fn) != "Parser.evaluateSubscript" && !constructsNode(s.Fn, "StringSubscript") {
-			continue
-		}
-		if !strings.Contains(FuncName(s.Fn), "Subscript") {
-			continue // the range desugaring builds a single-index subscript
+		if !constructsNode(s.Fn, "StringSubscript") || constructsNode(s.Fn, "For") {
+			continue // the range desugaring (which also builds the loop) uses a single-index subscript
 		}
 		pos := w.Pos(s.Instr.Pos())
 		for i, o := range pf.origins(s.Val, map[ssa.Value]bool{}) {
@@ -551,17 +548,21 @@ func c03Range(w *World, r *Result) {
 				src := newSrcSet()
 				backward(c.Call.Args[1], src, map[ssa.Value]bool{})
 				parsed := false
-				for n := range src.calls {
-					if strings.Contains(n, "evaluateBlock") {
-						parsed = true
+				for _, cs := range src.calls {
+					for _, cc := range cs {
+						if returnsStatementList(cc.Call.StaticCallee()) {
+							parsed = true
+						}
 					}
 				}
 				src0 := newSrcSet()
 				backward(c.Call.Args[0], src0, map[ssa.Value]bool{})
 				preParsed := false
-				for n := range src0.calls {
-					if strings.Contains(n, "evaluateBlock") {
-						preParsed = true
+				for _, cs := range src0.calls {
+					for _, cc := range cs {
+						if returnsStatementList(cc.Call.StaticCallee()) {
+							preParsed = true
+						}
 					}
 				}
 				if parsed && !preParsed {
